@@ -304,7 +304,7 @@ def run_C12(run):
     fails = oracle_sweep(run, "C12", [("all", [])], run.tier)
     run.fails = run.triage(fails)
     run.assumptions = ["identities are over the exact real value of the traced float expressions (sqrt = real square root); 'within rounding' is exercised by the oracle only",
-                       "gtx lMax norms, the 4-argument l2Norm/lxNorm overloads and the matrix orthonormalize are traced but have no theorem (oracle / trace self-validation only); angle / orientedAngle / l1-l2 norms / triangleNormal / vector orthonormalize / closestPointOnLine are theorems",
+                       "the matrix orthonormalize is traced but has no theorem (oracle / trace self-validation only); angle / orientedAngle / l1-l2-lMax-lx norms / triangleNormal / vector orthonormalize / closestPointOnLine are theorems",
                        "double shares the template code (oracle only)"]
     return run.finish(TRUST_COMMON + ["oracle_C12.cpp: long-double references on tiny/huge/axis-aligned/integer/generic vectors (violation search only)"],
                       "theorems: all component values (symbolic), lengths 1-4 enumerated, scalar overloads included; oracle: 5 vector classes x lengths x float/double",
